@@ -243,6 +243,8 @@ def run(ctx):
             t.failed("after deleting every field of a paragraph and adding one, the dump is not the new field in its place",
                      document=doc, deleted=order, dump=out, expected="Origin: debian\n" + rest)
             break
+    if not t.fail:
+        rm.large_documents(repro, t)
     t.done()
     ctx.level = "other"
     ctx.explanation = ("PROVED from the real AST of debian._util (same contracts as C09): the LinkedList / OrderedSet operations "
